@@ -48,6 +48,8 @@ func runC01(c *Check, tier string) {
 	ruleKeyContentReadInsideCallback(c, "R01w")
 	ruleNoContentMemo(c, "R01x", "hashing", "execution", "output")
 	ruleContentDigestsNotSorted(c, "R01y")
+	// round 8: what the user declared reaches the key as declared (not a number's canonical spelling)
+	shareRule(c, "R01z", "a declared scalar reaches the target description in the form it was written, not re-rendered through a parsed number or a display form (same obligations as R09i)", 1, "R09i", func(sub *Check) { ruleStarlarkDisplayFormNotStored(sub, "R09i") }, nil)
 	ruleMemoKeyComplete(c, "R01k", "loading", "hashing", "execution", "output", "dag", "analysis", "selection", "config", "label", "model", "caching", "cmd")
 	// every input the user declared is a key source: a pattern must be recognised as one
 	ruleGlobMetaComplete(c, "R01t")
@@ -584,6 +586,33 @@ func ruleR01c(c *Check) {
 				"the restore is given the same target whose ChangeHash was looked up and exactly the looked-up result",
 				fmt.Sprintf("restore uses a different target (%v) or a result that is not the looked-up one (%v)", !okT, !okR), c.P.InstrPos(r))
 		}
+		// the restore inside a helper the hit handling was moved into: its parameters stand for the gate's
+		// arguments at the call
+		if len(restores) == 0 {
+			for _, hs := range gateHelpersCalling(c, gate, loadOutputs) {
+				// the helper that handles the hit answers whether it did (the dependency loader, which restores
+				// other targets' outputs, returns an error and is judged by R15)
+				if res := hs.Helper.Signature.Results(); res.Len() != 1 || res.At(0).Type().String() != "bool" {
+					continue
+				}
+				for _, r := range callsToFn(c, hs.Helper, loadOutputs) {
+					okT, okR := false, false
+					engine.WithCtx([]*ssa.Call{hs.Call}, func() {
+						for _, a := range r.Common().Args {
+							switch engine.TypeKey(a.Type()) {
+							case "model.Target":
+								okT = sameVar(a, base)
+							case "proto/gen.TargetResult":
+								okR = engine.OriginsAllFromCall(a, map[ssa.CallInstruction]int{lk: 0}, false)
+							}
+						}
+					})
+					c.Require(okT && okR, "R01c", "gate-restore-same-target/"+gname,
+						"the restore (in "+c.P.FuncName(hs.Helper)+") is given the same target whose ChangeHash was looked up and exactly the looked-up result",
+						fmt.Sprintf("restore uses a different target (%v) or a result that is not the looked-up one (%v)", !okT, !okR), c.P.InstrPos(r))
+				}
+			}
+		}
 	}
 	// change hash computed before submission, error aborts
 	setters := writersOfField(c, changeHashKey)
@@ -827,7 +856,11 @@ func dirWriteOrder(c *Check, rule string) {
 					continue
 				}
 				producers := map[ssa.CallInstruction]int{}
-				for _, s := range engine.SitesIn(fn) {
+				var regionSitesAll []ssa.CallInstruction
+				for f := range regionOf(c, fn) {
+					regionSitesAll = append(regionSitesAll, engine.SitesIn(f)...)
+				}
+				for _, s := range regionSitesAll {
 					res := s.Common().Signature().Results()
 					for i := 0; i < res.Len(); i++ {
 						if types.Identical(res.At(i).Type(), a.Type()) {
